@@ -456,6 +456,10 @@ func init() {
 				s.ForceDuration(time.Duration(atoi64(p[1])), p[2] == "1")
 				continue
 			}
+			if p[0] == "selfmerge" {
+				s.Merge(s) // every cue of the argument is added, also when the receiver already holds it
+				continue
+			}
 			if p[0] == "swap" {
 				// the caller re-times cues by hand between two calls (the fields are public): the first and the last
 				// cue exchange their times, the number of cues stays
@@ -493,6 +497,11 @@ func init() {
 			}
 			if r.chance(1, 3) { // the same operation twice in a row
 				ops = append(ops, ops[len(ops)-1])
+			}
+			if r.chance(1, 8) {
+				// a list merged into itself holds every cue twice (the same objects: only as the last step, the model's
+				// lists do not share cells)
+				ops = append(ops, "selfmerge")
 			}
 			c.do(fmt.Sprintf("ops.seq %s %d %s", strings.Join(ops, ","), r.intn(3), encMItems(xs)))
 			c.count("histories")
